@@ -20,6 +20,24 @@ type GenCfg struct {
 	BadPct                                                      int // share of invalid resources inside responses
 	RefusePct                                                   int // share of refused NewStream calls
 	IgnoreDel                                                   bool
+	// MaxAuths > 0: up to MaxAuths named authorities (at least one with
+	// probability AuthPct/100) with server lists drawn as ordered subsets of
+	// the server pool; watches and response resources then carry an authority.
+	// Zero value: only the top-level authority (old behaviour, identical
+	// draw sequence).
+	MaxAuths, AuthPct int
+}
+
+// genCtx is what op generation needs to know about the plan being drawn.
+type genCtx struct {
+	auths int // number of authorities including the top-level one
+}
+
+func (c genCtx) auth(rt *rapid.T, label string) int {
+	if c.auths <= 1 {
+		return 0
+	}
+	return uniform(rt, c.auths, label)
 }
 
 // names r0 and r1 are favoured so that several watchers meet on one resource
@@ -54,18 +72,38 @@ func pct(rt *rapid.T, p int, label string) bool {
 	return 99-uniform(rt, 100, label) < p
 }
 
-func genRes(rt *rapid.T, cfg GenCfg) []ResSpec {
+func genRes(rt *rapid.T, cfg GenCfg, gc genCtx) []ResSpec {
 	// distinct names by construction: a subset of the name space
 	var res []ResSpec
-	for n := 0; n < maxNames; n++ {
-		if !pct(rt, inPct[n], "in") {
-			continue
+	if gc.auths > 1 {
+		// a shared server answers for several authorities at once: each
+		// authority contributes a (smaller) subset of its names
+		for a := 0; a < gc.auths; a++ {
+			if !pct(rt, 60, "ina") {
+				continue
+			}
+			for n := 0; n < maxNames; n++ {
+				if !pct(rt, inPct[n]*2/3, "in") {
+					continue
+				}
+				rs := ResSpec{N: n, A: a, V: rapid.IntRange(0, 2).Draw(rt, "v")}
+				if pct(rt, cfg.BadPct*2/3, "bad") {
+					rs.Kind = 1
+				}
+				res = append(res, rs)
+			}
 		}
-		rs := ResSpec{N: n, V: rapid.IntRange(0, 2).Draw(rt, "v")}
-		if pct(rt, cfg.BadPct, "bad") {
-			rs.Kind = 1
+	} else {
+		for n := 0; n < maxNames; n++ {
+			if !pct(rt, inPct[n], "in") {
+				continue
+			}
+			rs := ResSpec{N: n, V: rapid.IntRange(0, 2).Draw(rt, "v")}
+			if pct(rt, cfg.BadPct, "bad") {
+				rs.Kind = 1
+			}
+			res = append(res, rs)
 		}
-		res = append(res, rs)
 	}
 	if pct(rt, 6, "junk") {
 		res = append(res, ResSpec{Kind: 2, V: rapid.IntRange(0, 1).Draw(rt, "jv")})
@@ -79,14 +117,16 @@ func genRes(rt *rapid.T, cfg GenCfg) []ResSpec {
 	return res
 }
 
-// GenOps draws one op or a macro of several ops.
-func GenOps(rt *rapid.T, cfg GenCfg) []Op {
+// GenOps draws one op or a macro of several ops (top-level authority only).
+func GenOps(rt *rapid.T, cfg GenCfg) []Op { return genOps(rt, cfg, genCtx{auths: 1}) }
+
+func genOps(rt *rapid.T, cfg GenCfg, gc genCtx) []Op {
 	total := cfg.WWatch + cfg.WUnwatch + cfg.WResp + cfg.WBreak + cfg.WGrant + cfg.WRelease + cfg.WAdvance + cfg.WRestart
 	total += cfg.WViv + cfg.WFailover + cfg.WRevert
 	x := uniform(rt, total, "kind")
 	if x >= total-cfg.WRevert {
 		r := Op{K: "resp", S: 0, T: rapid.IntRange(0, 1).Draw(rt, "t"), Ver: rapid.IntRange(0, 3).Draw(rt, "ver"), Nonce: rapid.IntRange(0, 5).Draw(rt, "nonce")}
-		r.Res = genRes(rt, cfg)
+		r.Res = genRes(rt, cfg, gc)
 		return []Op{{K: "release", All: true}, {K: "grant", S: 0, Accept: true}, r}
 	}
 	total -= cfg.WRevert
@@ -101,21 +141,22 @@ func GenOps(rt *rapid.T, cfg GenCfg) []Op {
 		s2 := rapid.IntRange(0, 2).Draw(rt, "s2")
 		ops = append(ops, Op{K: "grant", S: s2, Accept: true})
 		r := Op{K: "resp", S: rapid.IntRange(0, 2).Draw(rt, "s3"), T: rapid.IntRange(0, 1).Draw(rt, "t"), Ver: rapid.IntRange(0, 3).Draw(rt, "ver"), Nonce: rapid.IntRange(0, 5).Draw(rt, "nonce")}
-		r.Res = genRes(rt, cfg)
+		r.Res = genRes(rt, cfg, gc)
 		return append(ops, r)
 	}
 	total -= cfg.WFailover
 	if x >= total-cfg.WViv {
 		t, n := rapid.IntRange(0, 1).Draw(rt, "t"), GenName(rt)
+		au := gc.auth(rt, "a")
 		v := rapid.IntRange(0, 2).Draw(rt, "v")
 		v2 := v
 		if rapid.Bool().Draw(rt, "same") == false {
 			v2 = rapid.IntRange(0, 2).Draw(rt, "v2")
 		}
 		mk := func(kind, vv int) Op {
-			return Op{K: "resp", T: t, Ver: rapid.IntRange(0, 3).Draw(rt, "ver"), Nonce: rapid.IntRange(0, 5).Draw(rt, "nonce"), Res: []ResSpec{{N: n, Kind: kind, V: vv}}}
+			return Op{K: "resp", T: t, Ver: rapid.IntRange(0, 3).Draw(rt, "ver"), Nonce: rapid.IntRange(0, 5).Draw(rt, "nonce"), Res: []ResSpec{{N: n, Kind: kind, V: vv, A: au}}}
 		}
-		return []Op{{K: "watch", T: t, N: n, Hold: pct(rt, cfg.HoldPct, "hold")}, {K: "watch", T: t, N: n, Hold: pct(rt, cfg.HoldPct, "hold")},
+		return []Op{{K: "watch", T: t, N: n, A: au, Hold: pct(rt, cfg.HoldPct, "hold")}, {K: "watch", T: t, N: n, A: au, Hold: pct(rt, cfg.HoldPct, "hold")},
 			{K: "release", All: true}, mk(0, v), {K: "release", All: true}, mk(1, rapid.IntRange(0, 1).Draw(rt, "reason")), {K: "release", All: true}, mk(0, v2)}
 	}
 	total -= cfg.WViv
@@ -123,13 +164,13 @@ func GenOps(rt *rapid.T, cfg GenCfg) []Op {
 		s := rapid.IntRange(0, 2).Draw(rt, "s")
 		return []Op{{K: "break", S: s}, {K: "release", All: true}, {K: "grant", S: s, Accept: true}}
 	}
-	return []Op{genOp(rt, cfg, x)}
+	return []Op{genOp(rt, cfg, gc, x)}
 }
 
-func genOp(rt *rapid.T, cfg GenCfg, x int) Op {
+func genOp(rt *rapid.T, cfg GenCfg, gc genCtx, x int) Op {
 	switch {
 	case x < cfg.WWatch:
-		return Op{K: "watch", T: rapid.IntRange(0, 1).Draw(rt, "t"), N: GenName(rt), Hold: pct(rt, cfg.HoldPct, "hold")}
+		return Op{K: "watch", T: rapid.IntRange(0, 1).Draw(rt, "t"), N: GenName(rt), A: gc.auth(rt, "a"), Hold: pct(rt, cfg.HoldPct, "hold")}
 	case x < cfg.WWatch+cfg.WUnwatch:
 		return Op{K: "unwatch", N: rapid.IntRange(0, 7).Draw(rt, "k")}
 	case x < cfg.WWatch+cfg.WUnwatch+cfg.WResp:
@@ -138,7 +179,7 @@ func genOp(rt *rapid.T, cfg GenCfg, x int) Op {
 		if pct(rt, cfg.UnknownPct, "unknown") {
 			op.T = 2
 		}
-		op.Res = genRes(rt, cfg)
+		op.Res = genRes(rt, cfg, gc)
 		return op
 	case x < cfg.WWatch+cfg.WUnwatch+cfg.WResp+cfg.WBreak:
 		return Op{K: "break", S: rapid.IntRange(0, 2).Draw(rt, "s")}
@@ -164,9 +205,39 @@ func Gen(rt *rapid.T, cfg GenCfg) Plan {
 		}
 	}
 	p.ReleaseAtEnd = rapid.Bool().Draw(rt, "release_at_end")
+	gc := genCtx{auths: 1}
+	if cfg.MaxAuths > 0 && p.Servers > 1 && pct(rt, cfg.AuthPct, "auths") {
+		p.Auths = GenAuths(rt, p.Servers, cfg.MaxAuths)
+		gc.auths = 1 + len(p.Auths)
+	}
 	n := rapid.IntRange(cfg.MinOps, cfg.MaxOps).Draw(rt, "nops")
 	for len(p.Ops) < n {
-		p.Ops = append(p.Ops, GenOps(rt, cfg)...)
+		p.Ops = append(p.Ops, genOps(rt, cfg, gc)...)
 	}
 	return p
+}
+
+// GenAuths draws 1..max named authorities over a pool of `servers` servers.
+// Each list is a non-empty ordered subset of the pool (any order: two
+// authorities may rank the same two servers differently), so a server is
+// commonly the primary of one authority and a fallback of another. The
+// top-level authority always has the whole pool in index order.
+func GenAuths(rt *rapid.T, servers, max int) [][]int {
+	k := 1 + uniform(rt, max, "nauth")
+	var out [][]int
+	for a := 0; a < k; a++ {
+		// a random permutation of the pool (Fisher-Yates from fair coins) ...
+		perm := make([]int, servers)
+		for i := range perm {
+			perm[i] = i
+		}
+		for i := servers - 1; i > 0; i-- {
+			j := uniform(rt, i+1, "perm")
+			perm[i], perm[j] = perm[j], perm[i]
+		}
+		// ... cut to a length of 1..servers (length 1 is as likely as each other)
+		l := 1 + uniform(rt, servers, "len")
+		out = append(out, perm[:l])
+	}
+	return out
 }
